@@ -379,27 +379,55 @@ func c06Logical(op c06Op) []byte {
 }
 
 // c06Build appends the ops through the real writer and indexes the files it produced.
-func c06Build(dir string, ops []c06Op, maxSize int64) (*c06Log, error) {
+func c06Build(dir string, ops []c06Op, maxSize int64, backlog ...bool) (*c06Log, error) {
 	w, err := NewWriter(&WriterConfig{WALDir: dir, SyncMode: SyncModeAsync, MaxSizeBytes: maxSize, MaxAge: 24 * time.Hour,
 		SyncInterval: time.Hour, BufferSize: 64, Logger: zerolog.Nop()})
 	if err != nil {
 		return nil, fmt.Errorf("NewWriter: %w", err)
 	}
+	// The append calls are asynchronous: they return before the writer goroutine
+	// has put the entry on disk. What was "appended" is the content of the
+	// caller's slice at the time of the call, so every call gets a private copy
+	// that is overwritten as soon as the call returns (the HTTP server recycles
+	// the request body the same way). With backlog the writer goroutine is held
+	// behind the writer's mutex until all appends have returned (a queued
+	// backlog), otherwise it races freely.
+	held := len(backlog) > 0 && backlog[0]
+	if held {
+		w.mu.Lock()
+	}
+	scribble := func(b []byte) {
+		for i := range b {
+			b[i] ^= 0xFF
+		}
+	}
 	for i, op := range ops {
 		switch op.Kind {
 		case "raw":
-			err = w.AppendRaw(op.Payload)
+			buf := append([]byte(nil), op.Payload...)
+			err = w.AppendRaw(buf)
+			scribble(buf)
 		case "rawenv":
-			err = w.AppendRaw(c06Envelope(op.DB, op.Payload))
+			buf := c06Envelope(op.DB, op.Payload)
+			err = w.AppendRaw(buf)
+			scribble(buf)
 		case "meta":
-			err = w.AppendRawWithMeta(op.DB, op.Payload)
+			buf := append([]byte(nil), op.Payload...)
+			err = w.AppendRawWithMeta(op.DB, buf)
+			scribble(buf)
 		case "rows":
 			err = w.Append(op.Rows)
 		}
 		if err != nil {
+			if held {
+				w.mu.Unlock()
+			}
 			w.Close()
 			return nil, fmt.Errorf("append %d: %w", i, err)
 		}
+	}
+	if held {
+		w.mu.Unlock()
 	}
 	if err := w.Close(); err != nil {
 		return nil, fmt.Errorf("close: %w", err)
@@ -763,7 +791,11 @@ func TestVerifC06_DamageEnumeration(t *testing.T) {
 		}
 		defer os.RemoveAll(dir)
 		walDir := filepath.Join(dir, "wal")
-		lg, err := c06Build(walDir, ops, maxSize)
+		backlog := rapid.Bool().Draw(t, "writerbacklog")
+		if backlog {
+			verifkit.Class("log:appends-return-before-writer-runs")
+		}
+		lg, err := c06Build(walDir, ops, maxSize, backlog)
 		if err != nil {
 			t.Fatalf("VERIF-FAIL class=C06/writer-does-not-store-what-was-appended %v\n ops=%v", err, ops)
 		}
